@@ -76,6 +76,7 @@ class World:
         self.decl_mangled = {}  # decl id -> mangled
         self.enums = {}         # qualified enum name -> [(enumerator, value)]
         self.funcs = []         # all function-like nodes with bodies (for inventories): (qualname, node)
+        self.rec_tu = {}        # qualified record name -> id table of the TU it was taken from
 
 def qual_from_mangled(m):
     """_ZN[K]4ASAM3CMP9CmpHeader10getVersionEv -> ['ASAM','CMP','CmpHeader','getVersion']"""
@@ -108,6 +109,7 @@ def walk(node, path, W, tu):
         q = '::'.join(path + [name])
         if any(c['kind'] == 'FieldDecl' for c in node['inner']) or q not in W.records:
             W.records[q] = node
+            W.rec_tu[q] = tu
         W.rec_of_id[node['id']] = q
         for c in node['inner']:
             walk(c, path + [name], W, tu)
@@ -145,14 +147,20 @@ def walk(node, path, W, tu):
     for c in node.get('inner', []):
         walk(c, path, W, tu)
 
-def const_value(n):
+def const_value(n, tu=None):
     """integer value of a constant-initialiser subtree if clang recorded it"""
     if n.get('kind') == 'ConstantExpr' and 'value' in n:
         return int(n['value'])
     if n.get('kind') == 'IntegerLiteral':
         return int(n['value'])
+    if n.get('kind') == 'CXXBoolLiteralExpr':
+        return 1 if n.get('value') else 0
+    if n.get('kind') == 'DeclRefExpr' and tu is not None and n.get('referencedDecl', {}).get('kind') == 'EnumConstantDecl':
+        d = tu.get(n['referencedDecl']['id'])
+        if d is not None:
+            return const_value(d, None)
     for c in n.get('inner', []):
-        v = const_value(c)
+        v = const_value(c, tu)
         if v is not None:
             return v
     return None
@@ -686,7 +694,7 @@ def default_inits(W, layout, recs):
             off, size = layout[q]['fields'][pname]
             dv = None
             if c.get('hasInClassInitializer'):
-                v = const_value(c)
+                v = const_value(c, W.rec_tu.get(q))
                 if v is None:
                     # floating literal 0.f etc.
                     txt = json.dumps(c.get('inner', []))
@@ -698,8 +706,17 @@ def default_inits(W, layout, recs):
                 else:
                     dv = v & ((1 << (8 * size)) - 1)
             rows.append((pname, off, size, dv))
+            dq = (c['type'].get('desugaredQualType') or c['type']['qualType'])
+            scalar = ti is not None or dq.endswith('*') or dq.startswith('enum ') or W_enum_like(W, dq)
+            if scalar and not c.get('hasInClassInitializer'):
+                UNINIT.append((q, pname))
         res[q] = rows
     return res
+
+UNINIT = []
+def W_enum_like(W, dq):
+    last = dq.replace('const ', '').split('::')[-1]
+    return any(e.split('::')[-1] == last for e in W.enum_widths)
 
 def write_outputs(out, W, layout, recs, methods_out, untranslatable, forwards):
     L = []
@@ -731,6 +748,10 @@ def write_outputs(out, W, layout, recs, methods_out, untranslatable, forwards):
     for q in sorted(di):
         rr.append('  (%s, (%d, [%s]))' % (coq_str(q), layout[q]['size'], '; '.join('(%s, %d, %d, %s)' % (coq_str(n), o, s, 'Some %d' % d if d is not None else 'None') for n, o, s, d in di[q])))
     G.append(';\n'.join(rr)); G.append('].\n')
+    G.append('(* scalar / enumeration / pointer data members WITHOUT a default member initialiser: (class, member path) *)')
+    G.append('Definition gen_uninit_members : list (string * string) := [')
+    G.append(';\n'.join('  (%s, %s)' % (coq_str(a), coq_str(b)) for a, b in sorted(set(UNINIT))))
+    G.append('].\n')
     G.append('Definition gen_enums : list (string * list (string * Z)) := [')
     G.append(';\n'.join('  (%s, [%s])' % (coq_str(q), '; '.join('(%s, %d)' % (coq_str(n), v) for n, v in vals)) for q, vals in sorted(W.enums.items())))
     G.append('].')
